@@ -11,6 +11,7 @@ package wire
 //@   props C18
 //@   pure
 //@   ensures 0 <= result && result <= 8 && (result == 0) == (i == 0)
+//@   ensures [size-is-the-least-number-of-bytes-that-hold-the-value] i < pow256(result) && (result > 0 ==> i >= pow256(result - 1))
 
 //@ func setFirstErr
 //@   props C18
